@@ -50,6 +50,9 @@ CONSTANTS MinBodies, MaxBodies,
           SpPairs,     \* spatial tendon <<b1, b2>>: straight segment between the sites of two bodies (0 = world site,
                        \* at the origin); <<0, 0>> = none.  It exists only where its length is a positive integer.
           SpArms,      \* its armature
+          StiffPolys, DampPolys,        \* joints: higher-order coefficients <<b, c>> of the stiffness / damping polynomials
+          TenKPolys, TenDPolys,         \* fixed tendon: the same
+          SpStiffs, SpRanges, SpDamps,  \* spatial tendon: stiffness <<a, b, c>>, spring dead band <<lo, hi>>, damping <<a, b, c>>
           Level,       \* 1: kinematics only, 2: + mass matrix and dynamics, 3: + passive forces and energy
           Tie,         \* TRUE (enumeration only): a body has its joint anchor and its inertial frame both at the body
                        \* origin or neither (keeps the exhaustive lattices small while covering MuJoCo's "simple" bodies)
@@ -149,14 +152,16 @@ PickA(par, jt, ax, pos, rot, janc, spos, srot) ==
 
 \* a fixed tendon spans joints of one type only (its length then has one unit)
 TenTypeOK(jt, tc) == tc # 0 => \A j \in 1..n : B[j].tc # 0 => B[j].jt = jt
-PickB(m, inr, ipos, arm, k, qref, damp, gc, tc) ==
+PickB(m, inr, ipos, arm, k, kp, qref, damp, dp, gc, tc) ==
   LET nj == part.jt = "none"
       tcOK == ~nj /\ TenTypeOK(part.jt, tc) IN
-  /\ (~Rand /\ nj) => (arm = Canon(Arms) /\ k = Canon(Stiffs) /\ qref = Canon(Refs) /\ damp = Canon(Damps) /\ tc = Canon(TCoefs))
+  /\ (~Rand /\ nj) => (arm = Canon(Arms) /\ k = Canon(Stiffs) /\ qref = Canon(Refs) /\ damp = Canon(Damps) /\ tc = Canon(TCoefs)
+                        /\ kp = Canon(StiffPolys) /\ dp = Canon(DampPolys))
   /\ (~Rand /\ Tie) => ((part.janc = Z3) <=> (ipos = Z3))
   /\ ~Rand => TenTypeOK(part.jt, tc)
   /\ part' = part @@ [mass |-> m, inr |-> inr, ipos |-> ipos, arm |-> IF nj THEN 0 ELSE arm, k |-> IF nj THEN 0 ELSE k,
                       qref |-> IF nj THEN 0 ELSE qref, damp |-> IF nj THEN 0 ELSE damp,
+                      kp |-> IF nj THEN <<0, 0>> ELSE kp, dp |-> IF nj THEN <<0, 0>> ELSE dp,
                       gc |-> gc, tc |-> IF tcOK THEN tc ELSE 0]
   /\ stage' = "C"
   /\ UNCHANGED <<B, glob, tree, kin, fd, vel, mass, dyn, pas, en, ev>>
@@ -172,17 +177,23 @@ PickC(q, v, a) ==
 HasTendon == \E j \in 1..n : B[j].tc # 0
 NoSp == <<0, 0>>
 SpValid(sp) == sp = NoSp \/ (sp[1] # sp[2] /\ sp[1] <= n /\ sp[2] <= n)
-PickG(g, dis, tk, tr, td, ta, tz, sp0, sa) ==
+PickG(g, dis, tk, tkp, tr, td, tdp, ta, tz, sp0, sa, ssk, ssr, ssd) ==
   LET ht == HasTendon
       sp == IF Rand /\ (~SpValid(sp0) \/ sa = 0) THEN NoSp ELSE sp0 IN
   /\ n >= MinBodies
-  /\ (~Rand /\ ~ht) => (tk = 0 /\ td = 0 /\ ta = 0 /\ tr = <<0, 0>> /\ ~tz)
+  /\ (~Rand /\ ~ht) => (tk = Canon(TenK) /\ td = Canon(TenDamps) /\ ta = Canon(TenArms) /\ tr = Canon(TenRanges) /\ tz = Canon(TenZero)
+                         /\ tkp = Canon(TenKPolys) /\ tdp = Canon(TenDPolys))
+  /\ (~Rand /\ sp = NoSp) => (ssk = Canon(SpStiffs) /\ ssr = Canon(SpRanges) /\ ssd = Canon(SpDamps))
+  /\ ssr[1] <= ssr[2]
   /\ tr[1] <= tr[2]
   /\ SpValid(sp)
   /\ ~Rand => ((sp = NoSp) <=> (sa = 0))
   /\ glob' = [g |-> g, dis |-> dis, tk |-> IF ht THEN tk ELSE 0, trange |-> IF ht THEN tr ELSE <<0, 0>>,
               tdamp |-> IF ht THEN td ELSE 0, tarm |-> IF ht THEN ta ELSE 0, tz |-> ht /\ tz,
-              sp |-> sp, sarm |-> IF sp = NoSp THEN 0 ELSE sa]
+              tkp |-> IF ht THEN tkp ELSE <<0, 0>>, tdp |-> IF ht THEN tdp ELSE <<0, 0>>,
+              sp |-> sp, sarm |-> IF sp = NoSp THEN 0 ELSE sa,
+              ssk |-> IF sp = NoSp THEN <<0, 0, 0>> ELSE ssk, ssr |-> IF sp = NoSp THEN <<0, 0>> ELSE ssr,
+              ssd |-> IF sp = NoSp THEN <<0, 0, 0>> ELSE ssd]
   /\ tree' = [anc |-> [b \in 1..n |-> AncOf(B, b)], dofs |-> SelectSeq([i \in 1..n |-> i], HasJ)]
   /\ stage' = "kin"
   /\ UNCHANGED <<B, part, kin, fd, vel, mass, dyn, pas, en, ev>>
@@ -383,48 +394,93 @@ Dyn ==
   /\ UNCHANGED <<B, part, glob, tree, kin, fd, vel, mass, pas, en, ev>>
 
 \* ------------------------------------------------------------------------------------------------
-\* Passive forces.  Numbers with a unit are pairs: value = A + Bu * u, u = pi/2 (one quarter turn) on hinge dofs
+\* Passive forces.  Documented polynomial laws (Computation chapter, "Polynomial forces"):
+\*   spring   f(x) = -(a x + b x^2 + c x^3)        x = displacement from the reference / outside the tendon dead band
+\*   damper   f(v) = -(a v + b v |v| + c v^3)      anti-symmetrised: odd in v
+\*   potential V(x) = a x^2 / 2 + b x^3 / 3 + c x^4 / 4
+\* Hinge displacements are multiples of u = pi/2, so hinge spring forces are polynomials in u; a quantity with units is
+\* a u-polynomial <<c0, c1, c2, c3, c4>> = c0 + c1 u + c2 u^2 + c3 u^3 + c4 u^4 (integers over a published denominator).
 \* ------------------------------------------------------------------------------------------------
+PZ == <<0, 0, 0, 0, 0>>
+PInt(x) == <<x, 0, 0, 0, 0>>
+PAdd(a, b) == [t \in 1..5 |-> a[t] + b[t]]
+PScl(k, a) == [t \in 1..5 |-> k * a[t]]
+\* spring force and 12 * potential of displacement x (lattice units) with coefficients c = <<a, b, c>>
+SpringP(c, x, hinge) == IF hinge THEN <<0, 0 - c[1] * x, 0 - c[2] * x * x, 0 - c[3] * x * x * x, 0>>
+                        ELSE PInt(0 - (c[1] * x + c[2] * x * x + c[3] * x * x * x))
+Pot12P(c, x, hinge)  == IF hinge THEN <<0, 0, 6 * c[1] * x * x, 4 * c[2] * x * x * x, 3 * c[3] * x * x * x * x>>
+                        ELSE PInt(6 * c[1] * x * x + 4 * c[2] * x * x * x + 3 * c[3] * x * x * x * x)
+DampLaw(c, v) == 0 - (c[1] * v + c[2] * v * IAbs(v) + c[3] * v * v * v)
+\* "sign preservation" z f(z) >= 0 of the anti-symmetrised polynomial (documented condition; the user's responsibility)
+SignPreserving(c) == c[1] >= 0 /\ c[3] >= 0 /\ (c[2] < 0 => c[2] * c[2] <= 4 * c[1] * c[3])
+
+JK(i) == <<B[i].k, B[i].kp[1], B[i].kp[2]>>
+JD(i) == <<B[i].damp, B[i].dp[1], B[i].dp[2]>>
+TK == <<glob.tk, glob.tkp[1], glob.tkp[2]>>
+TD == <<glob.tdamp, glob.tdp[1], glob.tdp[2]>>
 TenLen(q)  == SumN([j \in 1..n |-> B[j].tc * q[j]], n)                 \* in units of the tendon's joint type
 TenDefl(q) == LET L == TenLen(q) IN IF L > glob.trange[2] THEN L - glob.trange[2]
                                     ELSE IF L < glob.trange[1] THEN L - glob.trange[1] ELSE 0
+TenVel(v)  == SumN([j \in 1..n |-> B[j].tc * v[j]], n)
 TenIsHinge == \E j \in 1..n : B[j].tc # 0 /\ IsH(j)
 SpringOn == ~Dis("spring")
 DamperOn == ~Dis("damper")
 PassiveOn == SpringOn \/ DamperOn                     \* both disabled: all passive forces are skipped (documented)
 GravcompOn == PassiveOn /\ ~Dis("gravity") /\ glob.g # Z3
-SpringRaw(q, i)  == IF SpringOn /\ HasJ(i) THEN 0 - B[i].k * (q[i] - B[i].qref) - B[i].tc * glob.tk * TenDefl(q) ELSE 0
-DamperRaw(v, i)  == IF DamperOn /\ HasJ(i) THEN 0 - B[i].damp * v[i] - B[i].tc * glob.tdamp * SumN([j \in 1..n |-> B[j].tc * v[j]], n)
-                    ELSE 0
+\* spatial tendon: length velocity = S / L with S = sum (L J_t)_j v_j.  Its spring / damper are carried only where the
+\* numbers stay small (L <= 5, |S| <= 60): numerators over L^4
+SpS(v) == SumN([j \in 1..n |-> mass.spn[j] * v[j]], n)
+SpPasOn == mass.spL > 0 /\ mass.spL <= 5 /\ IAbs(SpS(VOf)) <= 60 /\ (glob.ssk # <<0, 0, 0>> \/ glob.ssd # <<0, 0, 0>>)
+PDen == IF SpPasOn THEN mass.spL * mass.spL * mass.spL * mass.spL ELSE 1
+SpDefl == IF mass.spL > glob.ssr[2] THEN mass.spL - glob.ssr[2] ELSE IF mass.spL < glob.ssr[1] THEN mass.spL - glob.ssr[1] ELSE 0
+\* generalized spring force of the joint springs and the fixed tendon (u-polynomial, not scaled)
+SpringJT(q, i) == IF SpringOn /\ HasJ(i)
+                  THEN PAdd(SpringP(JK(i), q[i] - B[i].qref, IsH(i)), PScl(B[i].tc, SpringP(TK, TenDefl(q), TenIsHinge)))
+                  ELSE PZ
+\* L^4 * spatial spring force on dof i = n_i L^3 f(x)
+SpringSp(i) == IF SpringOn /\ SpPasOn /\ HasJ(i)
+               THEN mass.spn[i] * mass.spL * mass.spL * mass.spL * SpringP(glob.ssk, SpDefl, FALSE)[1] ELSE 0
+SpringVec == [i \in 1..n |-> PAdd(PScl(PDen, SpringJT(QOf, i)), PInt(SpringSp(i)))]
+\* damper forces over PDen, as a function of the velocity
+DamperVec(v) ==
+  [i \in 1..n |-> IF DamperOn /\ HasJ(i)
+                  THEN PDen * (DampLaw(JD(i), v[i]) + B[i].tc * DampLaw(TD, TenVel(v)))
+                       + (IF SpPasOn THEN LET S == SpS(v)  L == mass.spL IN
+                            mass.spn[i] * (0 - (glob.ssd[1] * S * L * L + glob.ssd[2] * S * IAbs(S) * L + glob.ssd[3] * S * S * S))
+                          ELSE 0)
+                  ELSE 0]
 GravOf(b, i)     == B[b].mass * Dot(JP(b, kin[b].c, i), glob.g)        \* generalized gravity force of body b on dof i
 GravcompRaw(i)   == IF GravcompOn /\ HasJ(i) THEN 0 - SumN([b \in 1..n |-> B[b].gc * GravOf(b, i)], n) ELSE 0
 Passive ==
-  /\ LET sp == [i \in 1..n |-> SpringRaw(QOf, i)]
-         da == [i \in 1..n |-> DamperRaw(VOf, i)]
+  /\ LET sp == SpringVec
+         da == DamperVec(VOf)
          gc == [i \in 1..n |-> GravcompRaw(i)]
-     IN pas' = [spring |-> sp, damper |-> da, gravcomp |-> gc,              \* spring: unit u on hinge dofs
-                totA   |-> [i \in 1..n |-> (IF IsH(i) THEN 0 ELSE sp[i]) + da[i] + gc[i]],
-                totB   |-> [i \in 1..n |-> IF IsH(i) THEN sp[i] ELSE 0],
-                tlen   |-> TenLen(QOf), tvel |-> SumN([j \in 1..n |-> B[j].tc * B[j].v], n)]
+         tot == [i \in 1..n |-> PAdd(sp[i], PInt(da[i] + PDen * gc[i]))]
+     IN pas' = [pden |-> PDen, spring |-> sp, damper |-> da, gravcomp |-> gc, tot |-> tot,   \* spring, damper, tot over pden
+                sppas  |-> SpPasOn, spS |-> SpS(VOf),
+                \* the two leading parts (exact when there is no polynomial / spatial term: used by SmoothFwdInv)
+                totA   |-> [i \in 1..n |-> tot[i][1]], totB |-> [i \in 1..n |-> tot[i][2]],
+                tlen   |-> TenLen(QOf), tvel |-> TenVel(VOf)]
   /\ stage' = "en"
   /\ UNCHANGED <<B, part, glob, tree, kin, fd, vel, mass, dyn, en, ev>>
 
 \* ------------------------------------------------------------------------------------------------
-\* Energy.  potential = (A2 + B2 * u^2) / 2, kinetic = K2 / 2
+\* Energy.  12 * potential as a u-polynomial, kinetic = K2 / 2
 \* ------------------------------------------------------------------------------------------------
-PotA2(K, q) == (0 - 2) * SumN([b \in 1..n |-> B[b].mass * Dot(Grav, K[b].c)], n)
-               + (IF SpringOn THEN SumN([j \in 1..n |-> IF IsS(j) THEN B[j].k * (q[j] - B[j].qref) * (q[j] - B[j].qref) ELSE 0], n)
-                                   + (IF TenIsHinge THEN 0 ELSE glob.tk * TenDefl(q) * TenDefl(q))
-                  ELSE 0)
-PotB2(q)    == IF SpringOn THEN SumN([j \in 1..n |-> IF IsH(j) THEN B[j].k * (q[j] - B[j].qref) * (q[j] - B[j].qref) ELSE 0], n)
-                                + (IF TenIsHinge THEN glob.tk * TenDefl(q) * TenDefl(q) ELSE 0)
-               ELSE 0
+PotGrav12(K) == (0 - 12) * SumN([b \in 1..n |-> B[b].mass * Dot(Grav, K[b].c)], n)
+PotSpr12(q) == IF ~SpringOn THEN PZ ELSE
+  LET RECURSIVE Acc(_)
+      Acc(j) == IF j = 0 THEN Pot12P(TK, TenDefl(q), TenIsHinge)
+                ELSE PAdd(Acc(j - 1), IF HasJ(j) THEN Pot12P(JK(j), q[j] - B[j].qref, IsH(j)) ELSE PZ)
+  IN Acc(n)
+PotSp12 == IF SpringOn /\ SpPasOn THEN Pot12P(glob.ssk, SpDefl, FALSE) ELSE PZ
+\* the spatial tendon's length is irrational after a lattice move: potentials one step away are published without it
+FdOK == ~(SpringOn /\ SpPasOn /\ glob.ssk # <<0, 0, 0>>)
+Pot12(K, q) == PAdd(PInt(PotGrav12(K)), PotSpr12(q))
 Energy ==
-  /\ en' = [potA2 |-> PotA2(kin, QOf), potB2 |-> PotB2(QOf),
-            potA2p |-> [b \in 1..n |-> IF HasJ(b) THEN PotA2(fd[b].p, Bump(QOf, b, 1)) ELSE 0],
-            potA2m |-> [b \in 1..n |-> IF HasJ(b) THEN PotA2(fd[b].m, Bump(QOf, b, -1)) ELSE 0],
-            potB2p |-> [b \in 1..n |-> IF HasJ(b) THEN PotB2(Bump(QOf, b, 1)) ELSE 0],
-            potB2m |-> [b \in 1..n |-> IF HasJ(b) THEN PotB2(Bump(QOf, b, -1)) ELSE 0]]
+  /\ en' = [pot12  |-> PAdd(Pot12(kin, QOf), PotSp12), fdok |-> FdOK,
+            pot12p |-> [b \in 1..n |-> IF HasJ(b) THEN Pot12(fd[b].p, Bump(QOf, b, 1)) ELSE PZ],
+            pot12m |-> [b \in 1..n |-> IF HasJ(b) THEN Pot12(fd[b].m, Bump(QOf, b, -1)) ELSE PZ]]
   /\ stage' = "fin"
   /\ UNCHANGED <<B, part, glob, tree, kin, fd, vel, mass, dyn, pas, ev>>
 
@@ -493,11 +549,10 @@ EvDyn == [vel |-> vel,
           Mvsp |-> ByDof(MatVecN(mass.Msp, VOf)), kin2sp |-> dyn.kin2sp,
           biassp |-> ByDof(SpBiasNum), invsp |-> ByDof(SpInvNum),
           cacc |-> [b \in 1..n |-> [al |-> dyn.fs[b].al, ao |-> dyn.fs[b].ao]]]
-EvPas == [spring |-> ByDof(pas.spring), damper |-> ByDof(pas.damper), gravcomp |-> ByDof(pas.gravcomp),
+EvPas == [pden |-> pas.pden, spring |-> ByDof(pas.spring), damper |-> ByDof(pas.damper), gravcomp |-> ByDof(pas.gravcomp),
+          passive |-> ByDof(pas.tot), sppas |-> pas.sppas, spS |-> pas.spS,
           pasA |-> ByDof(pas.totA), pasB |-> ByDof(pas.totB), tlen |-> pas.tlen, tvel |-> pas.tvel,
-          potA2 |-> en.potA2, potB2 |-> en.potB2,
-          potA2p |-> ByDof(en.potA2p), potA2m |-> ByDof(en.potA2m),
-          potB2p |-> ByDof(en.potB2p), potB2m |-> ByDof(en.potB2m)]
+          pot12 |-> en.pot12, fdok |-> en.fdok, pot12p |-> ByDof(en.pot12p), pot12m |-> ByDof(en.pot12m)]
 Finish ==
   /\ ev' = IF Level = 1 THEN EvKin ELSE IF Level = 2 THEN EvKin @@ EvDyn ELSE EvKin @@ EvDyn @@ EvPas
   /\ stage' = "done"
@@ -509,12 +564,15 @@ DoPickA == stage = "A" /\ \E par \in Pick(Parents), jt \in Pick(JTypes), ax \in 
                               janc \in Pick(Anchors), spos \in Pick(SitePos), srot \in Pick(SiteRots) :
                               PickA(par, jt, ax, pos, rot, janc, spos, srot)
 DoPickB == stage = "B" /\ \E m \in Pick(Masses), inr \in Pick(Inertias), ipos \in Pick(IPoss), arm \in Pick(Arms), k \in Pick(Stiffs),
-                              qref \in Pick(Refs), damp \in Pick(Damps), gc \in Pick(GCs), tc \in Pick(TCoefs) :
-                              PickB(m, inr, ipos, arm, k, qref, damp, gc, tc)
+                              kp \in Pick(StiffPolys), qref \in Pick(Refs), damp \in Pick(Damps), dp \in Pick(DampPolys),
+                              gc \in Pick(GCs), tc \in Pick(TCoefs) :
+                              PickB(m, inr, ipos, arm, k, kp, qref, damp, dp, gc, tc)
 DoPickC == stage = "C" /\ \E q \in Pick(Qs), v \in Pick(Vs), a \in Pick(As) : PickC(q, v, a)
 DoPickG == stage = "A" /\ \E g \in Pick(Gravs), dis \in Pick(DisSets), tk \in Pick(TenK), tr \in Pick(TenRanges),
                               td \in Pick(TenDamps), ta \in Pick(TenArms), tz \in Pick(TenZero), sp \in Pick(SpPairs),
-                              sa \in Pick(SpArms) : PickG(g, dis, tk, tr, td, ta, tz, sp, sa)
+                              sa \in Pick(SpArms), tkp \in Pick(TenKPolys), tdp \in Pick(TenDPolys), ssk \in Pick(SpStiffs),
+                              ssr \in Pick(SpRanges), ssd \in Pick(SpDamps) :
+                              PickG(g, dis, tk, tkp, tr, td, tdp, ta, tz, sp, sa, ssk, ssr, ssd)
 DoKin     == stage = "kin"  /\ Kin
 DoFd      == stage = "fd"   /\ Fd
 DoVel     == stage = "vel"  /\ Vel
@@ -618,16 +676,31 @@ SpatialMassOK ==
         /\ dyn.kin2sp = Quad(mass.Msp, VOf)
 
 \* ---- C29 : passive forces ------------------------------------------------------------------------------
-\* spring force = - gradient of the reported potential (exact central difference; tendon dead band: same zone)
+\* spring force = - gradient of the reported potential.  Gravity: exact two-point central difference (trigonometric in
+\* the hinge angles).  Springs: the potential is a quartic in the lattice coordinate, for which the five-point stencil
+\*   -P(q+2e) + 8 P(q+e) - 8 P(q-e) + P(q-2e) = 12 dP/dq   is exact; with P = 12 V and force F = -dV/dq (per lattice step;
+\* per radian on hinges: one power of u less) this reads  stencil = -144 F.   (tendon dead band: same zone at all five points)
 GravForce(i) == IF Dis("gravity") THEN 0 ELSE SumN([b \in 1..n |-> GravOf(b, i)], n)
-TenZoneSame(j) == glob.tk = 0 \/ B[j].tc = 0
+TenZoneSame(j) == TK = <<0, 0, 0>> \/ B[j].tc = 0
                   \/ LET z(q) == IF TenLen(q) > glob.trange[2] THEN 1 ELSE IF TenLen(q) < glob.trange[1] THEN -1 ELSE 0
-                     IN z(Bump(QOf, j, 1)) = z(Bump(QOf, j, -1)) /\ z(QOf) = z(Bump(QOf, j, 1))
+                     IN \A k \in {-2, -1, 1, 2} : z(Bump(QOf, j, k)) = z(QOf)
+Stencil(j) == PAdd(PAdd(PScl(-1, PotSpr12(Bump(QOf, j, 2))), PScl(8, PotSpr12(Bump(QOf, j, 1)))),
+                   PAdd(PScl(-8, PotSpr12(Bump(QOf, j, -1))), PotSpr12(Bump(QOf, j, -2))))
 SpringIsMinusGradient ==
-  L3 => \A j \in DofB : TenZoneSame(j) =>
-          /\ en.potA2p[j] - en.potA2m[j] = (0 - 4) * ((IF IsH(j) THEN 0 ELSE pas.spring[j]) + GravForce(j))
-          /\ en.potB2p[j] - en.potB2m[j] = (0 - 4) * (IF IsH(j) THEN pas.spring[j] ELSE 0)
-DamperDissipates == L3 => SumN([i \in 1..n |-> pas.damper[i] * B[i].v], n) <= 0
+  L3 => \A j \in DofB :
+          /\ PotGrav12(fd[j].p) - PotGrav12(fd[j].m) = (0 - 24) * GravForce(j)
+          /\ TenZoneSame(j) =>
+                LET st == Stencil(j)  F == SpringJT(QOf, j) IN
+                IF IsH(j) THEN st[1] = 0 /\ \A t \in 1..4 : st[t + 1] = (0 - 144) * F[t]
+                ELSE \A t \in 1..5 : st[t] = (0 - 144) * F[t]
+\* dampers never add energy: element by element whenever the coefficients are sign preserving, and in total
+DamperDissipates ==
+  L3 => /\ \A i \in DofB : SignPreserving(JD(i)) => DampLaw(JD(i), B[i].v) * B[i].v <= 0
+        /\ SignPreserving(TD) => DampLaw(TD, TenVel(VOf)) * TenVel(VOf) <= 0
+        /\ ((\A i \in DofB : SignPreserving(JD(i))) /\ SignPreserving(TD) /\ SignPreserving(glob.ssd))
+              => SumN([i \in 1..n |-> pas.damper[i] * B[i].v], n) <= 0
+\* the damper force is an odd function of the velocity (anti-symmetrisation)
+DamperIsOdd == L3 => DamperVec([b \in 1..n |-> 0 - B[b].v]) = [i \in 1..n |-> 0 - pas.damper[i]]
 \* gravity compensation = gradient of the gravitational potential of the compensated bodies (weights gc)
 GravcompCancels ==
   L3 => \A j \in DofB : GravcompOn =>
@@ -636,15 +709,18 @@ GravcompCancels ==
 FullGravcompBalances ==
   L3 => ((GravcompOn /\ \A b \in 1..n : B[b].gc = 1 /\ B[b].v = 0) => \A i \in 1..n : pas.gravcomp[i] = dyn.bias[i])
 RestAtReferenceIsForceFree ==
-  L3 => ((\A b \in 1..n : B[b].v = 0 /\ B[b].q = B[b].qref /\ B[b].gc = 0) /\ TenDefl(QOf) = 0
-           => \A i \in 1..n : pas.totA[i] = 0 /\ pas.totB[i] = 0)
+  L3 => ((\A b \in 1..n : B[b].v = 0 /\ B[b].q = B[b].qref /\ B[b].gc = 0) /\ TenDefl(QOf) = 0 /\ (pas.sppas => SpDefl = 0)
+           => \A i \in 1..n : pas.tot[i] = PZ)
 \* ---- deliberately FALSE claims: negative controls of the model checking itself (TLC must refute them) ----
 \* "the bias force does not depend on the velocity"
 NegBiasVelocityFree == L2 => dyn.bias = RecTau(ZeroN, ZeroN)
 \* "a one-sided lattice difference is the Jacobian" (true for slides only)
 NegOneSidedDifference == Done => \A j \in DofB, b \in 1..n : VSub(fd[j].p[b].p, kin[b].p) = JP(b, kin[b].p, j)
 \* "springs push away from the reference"
-NegSpringSign == L3 => \A j \in DofB : pas.spring[j] * (B[j].q - B[j].qref) >= 0
+NegSpringSign == L3 => \A j \in DofB : \A t \in 1..5 : pas.spring[j][t] * (B[j].q - B[j].qref) >= 0
+\* "the damping coefficient is the plain polynomial b + p0 v + p1 v^2" (not anti-symmetrised)
+NegDamperPlainPoly == L3 => \A i \in DofB : B[i].tc = 0 =>
+                         pas.damper[i] = pas.pden * (0 - B[i].v * (B[i].damp + B[i].dp[1] * B[i].v + B[i].dp[2] * B[i].v * B[i].v))
 
 \* ---- constants of the configurations (cfg files cannot hold tuples) ----------------------------------
 AllJ == {"none", "slide", "hinge"}
@@ -658,6 +734,8 @@ V000 == {<<0, 0, 0>>}
 R0 == {<<1, 0>>}
 NoDis == {{}}
 NoSpS == {<<0, 0>>}
+P00 == {<<0, 0>>}
+T000 == {<<0, 0, 0>>}
 NoTz == {FALSE}
 BothTz == {FALSE, TRUE}
 OnlyTz == {TRUE}
@@ -715,8 +793,19 @@ P_Dis == {{}, {"spring"}, {"damper"}, {"gravity"}, {"spring", "damper"}, {"sprin
 P_TK == {0, 1, 2}
 P_TRng == {<<0, 0>>, <<-1, 1>>, <<1, 2>>}
 P_TDamp == {0, 1}
+\* polynomial coefficients <<b, c>>: sign preserving with the linear sets above except <<-3, 0>>
+P_KP1 == {<<-1, 1>>}
+P_DP1 == {<<1, 1>>}
+P_TKP1 == {<<1, 0>>}
+P_TDP1 == {<<2, 1>>}
+P_KPs == {<<0, 0>>, <<-1, 1>>, <<1, 0>>, <<0, 2>>}
+P_DPs == {<<0, 0>>, <<1, 0>>, <<2, 1>>, <<-1, 1>>, <<-3, 0>>}
+P_SpK == {<<0, 0, 0>>, <<2, 0, 0>>, <<2, -1, 1>>}
+P_SpR == {<<0, 0>>, <<1, 2>>, <<2, 4>>}
+P_SpD == {<<0, 0, 0>>, <<1, 1, 0>>, <<1, -1, 1>>, <<0, 2, 0>>}
 P_K1 == {2}
 P_Ref2 == {0, 1}
 P_V1 == {-2}
+P_V2 == {-2, 0}
 P_TRng2 == {<<0, 0>>, <<1, 2>>}
 =============================================================================
